@@ -2392,8 +2392,13 @@ class DiskObjectStore(PackBasedObjectStore):
 
         fd, path = tempfile.mkstemp(dir=self.pack_dir, suffix=".pack")
         f = os.fdopen(fd, "w+b")
-        os.chmod(path, PACK_MODE)
-        adjust_shared_perm(path, self.shared_perm)
+        try:
+            os.chmod(path, PACK_MODE)
+            adjust_shared_perm(path, self.shared_perm)
+        except BaseException:
+            f.close()
+            os.remove(path)
+            raise
 
         def commit() -> "Pack | None":
             try:
